@@ -383,6 +383,9 @@ class BaseModel(Generic[MvalT_co], metaclass=ModelsMeta):
         self._check_not_finished()
         self._complete_frames()
         self.R.enforce()
+        # enforce() may have added worlds (serial access): give them frames too
+        self._is_frame_complete = False
+        self._complete_frames()
         self._finished = True
         return self
 
